@@ -86,7 +86,12 @@ def run(module, cfg=None, workers=1, env=None, timeout=3600, simulate=None, dept
     r = TlcResult()
     r.wall = time.time() - t0
     r.stdout = p.stdout
-    for line in p.stdout.splitlines():
+    lines = p.stdout.splitlines()
+    # TLC's workers print exports in a run-dependent order: sorted, so that everything derived from an export's position
+    # (which variant it is replayed in, what is sampled) is reproducible
+    lines = sorted(l for l in lines if l.startswith('"{') or l.startswith('"[')) + \
+        [l for l in lines if not (l.startswith('"{') or l.startswith('"['))]
+    for line in lines:
         if line.startswith('"{') or line.startswith('"['):
             if lazy_exports:           # very large export sets: keep the text, the consumer parses (parse_export) one at a time
                 r.exports.append(line)
